@@ -7,7 +7,9 @@ if ! git apply "$S/patch.diff" 2>/tmp/apply.err; then
   if ! git apply -3 "$S/patch.diff" 2>>/tmp/apply.err; then echo "PATCH DOES NOT APPLY: $(cat /tmp/apply.err | head -3)"; git checkout -- . ; exit 3; fi
   git reset -q
 fi
+cp /verif/evidence/$ID.json /tmp/try_seed.evidence.$ID 2>/dev/null
 cd /verif && bin/check $ID --tier $TIER > /tmp/try_seed.out 2>&1; rc=$?
+cp /tmp/try_seed.evidence.$ID /verif/evidence/$ID.json 2>/dev/null
 git -C /repo checkout -- .
 echo "seed=$1 check=$ID tier=$TIER exit=$rc"
 grep -E "^VIOLATION|^KNOWN|HARNESS" /tmp/try_seed.out | head -4
